@@ -9,7 +9,7 @@ import Liquid.MapOrder
 
 Each body follows `filters/standard_filters.go`, `filters/sort_filters.go`, `values/sort.go`
 *after* the repairs in `fixes/` (`D4-uniq-nil`, `uniq-uncomparable-values`, `D4-sort-natural`,
-`sort-key-defined-string-type`, `array-nil-element`, `drops-in-arrays`). (`size` is in `Num.lean`.)
+`sort-key-defined-string-type`, `array-nil-element`, `drops-in-arrays`, `sort-key-drops`). (`size` is in `Num.lean`.)
 
 A body receives its arguments after `values.Call`: the receiver is always a `[]any`
 (`GoVal.slice .any xs`) — `Convert.lean` turned typed slices, fixed arrays, ranges, maps (values in
